@@ -1,5 +1,6 @@
 pub mod calendar;
 pub mod common;
+pub mod custom_units;
 pub mod engine;
 pub mod fuzzdec;
 pub mod vocab;
